@@ -126,9 +126,15 @@ def gen_set(rnd, n):
     return rf
 
 
-def dominance_pair(rnd, basic=False):
+def dominance_pair(rnd, basic=False, demoted=None):
     """Two rules that both match everything in the pool that contains the word; exactly one level decides."""
     w = rnd.choice(['UBER', 'NETFLIX', 'COSTCO', 'STAR'])
+    if demoted is not None:
+        # (fixed: an explicit priority that demotes the otherwise more specific rule - 0, 1 and negative values, in both file orders)
+        prio, lo_first = demoted
+        hi = R.Rule('HI', 'contains("%s")' % w[:2], 'Hi', 'HiSub')
+        lo = R.Rule('LO', 'contains("%s") and contains("%s") and regex("%s") and amount > -1e12 and month >= 0 and year >= 0' % (w, w, w), 'Lo', 'LoSub', priority=prio)
+        return R.RuleFile(variables=list(PREAMBLE), rules=[lo, hi] if lo_first else [hi, lo]), 'priority-demoted', w
     level = rnd.choice(['priority', 'patterns', 'kinds', 'length'] + ([] if basic else ['kinds-vs-long-text', 'patterns-vs-many-kinds', 'length-non-ascii', 'single-kind', 'single-kind', 'length-mixed-quotes', 'hash-in-pattern']))
     if level == 'hash-in-pattern':
         # a "#" inside a quoted pattern is pattern text (STORE #12, APT #4): what follows it on the line still counts
@@ -295,8 +301,8 @@ def judge_set(rec, rf, txns, rows, tmp, rnd, max_full, nsample):
                 rec.violation('config-path-most-specific-differs', f'get_all_rules(match_mode)->normalize_merchant: {got} expected {want}', case)
 
 
-def judge_dominance(rec, rnd, tmp):
-    rf, level, w = dominance_pair(rnd)
+def judge_dominance(rec, rnd, tmp, demoted=None):
+    rf, level, w = dominance_pair(rnd, demoted=demoted)
     if rnd.random() < .3:
         # function names are case-insensitive, for matching and for ranking alike
         for r in rf.rules:
@@ -470,6 +476,9 @@ def run(rec, shard, nshards, t):
             judge_rule_mode_setting(rec, tmp, rnd)
         if shard == 0:
             judge_migrating_run(rec, tmp, rnd, force=True)
+            for prio in (0, 1, -1, -100, 49):
+                for lo_first in (True, False):
+                    judge_dominance(rec, rnd, tmp, demoted=(prio, lo_first))
     finally:
         shutil.rmtree(tmp, ignore_errors=True)
 
